@@ -606,10 +606,20 @@ func VerifC13_sharedrow() {
 	}
 }
 
-type vfCountCB struct{ n int }
+type vfCountCB struct {
+	n    int
+	fail bool
+}
+
+type vfCountErr struct{}
+
+func (vfCountErr) Error() string { return "callback failed" }
 
 func (cb *vfCountCB) UpdateProperties(po PropertyOwner) error {
 	cb.n++
+	if cb.fail {
+		return vfCountErr{}
+	}
 	return nil
 }
 
@@ -648,6 +658,9 @@ func VerifC13_equalcallbacks() {
 		want = 1
 		vfTag("header-cell-callback")
 	}
+	// a callback that reports an error has still fired, and so do the ones registered after it
+	// (set after registration: at registration time the two objects are in the same state)
+	cb1.fail = vfBool("first-fails")
 	passes := 1 + vfChoice("passes", 2)
 	for p := 0; p < passes; p++ {
 		t.InvokeRenderCallbacks()
